@@ -55,12 +55,15 @@ def run(tier, argv):
     if p.returncode == 67:
         i = err.find("@@HANG")
         bad.append({"map": "concurrent", "ops": ["goroutine mix"], "what": "the goroutines never finished (they block each other): " + err[i:i + 200].split("\n")[0] + ("; race detector: %d reports" % races)})
+    elif p.returncode == 68:
+        i = err.find("@@INCONSISTENT")
+        bad.append({"map": "concurrent", "ops": ["goroutine mix"], "what": "after the goroutines finished the map is no insertion-ordered map: " + err[i:i + 400].split("\n")[0]})
     elif p.returncode not in (0, 66):
         raise vlib.Infra("c19race failed: " + err[-2000:])
     if races:
         i = err.find("WARNING: DATA RACE")
         bad.append({"map": "concurrent", "ops": ["goroutine mix"], "what": "race detector: %d reports; first: %s" % (races, err[i:i + 900])})
-    elif p.returncode != 67:
+    elif p.returncode not in (67, 68):
         rep.notes["race_calls"] = summary_of(p.stderr)["calls"]
     rep.cov["evaluations"] = s["sequences"]
     rep.cov["distinct_nontrivial"] = s["sequences"]
